@@ -529,6 +529,41 @@ def dash_to_camel_table(ctx, prefix):
                witness=None if not probs else "`data-col-2x` is delivered under the key `col2X` instead of `col-2x` -> `col2x`")]
 
 
+def entity_start_rule(ctx, prefix):
+    """the test that routes `&x..` to the named-reference scanner accepts every ASCII letter as first character"""
+    import absint as ai
+    ob = ctx.ob
+    tc = ctx.tc
+    pe = [f for f in tc.fns if f.name == "parse_next_entity" and f.body]
+    if not pe:
+        return [ob(prefix + "/name-start", False, "parse/tag.rs", "parse_next_entity not found")]
+    f = pe[0]
+    cond = None
+    for n in sir.walk(f.body):
+        if n.get("k") == "if" and any(x.get("k") in ("loop", "while") and any(y.get("k") == "p_range" and (y.get("lo") or {}).get("v") in ("a", "A") for y in sir.walk(x)) for x in sir.walk(n["then"])):
+            c_ = n["cond"]
+            if not any(x.get("k") == "lit" and x.get("v") == "#" for x in sir.walk(c_)) and c_.get("k") != "let":
+                cond = c_
+    if cond is None:
+        return [ob(prefix + "/name-start", None, ctx.where(f), "the branch that scans a named reference is not written in a form this rule reads")]
+    names = [x["segs"][0] for x in sir.walk(cond) if x.get("k") == "path" and len(x["segs"]) == 1 and x["segs"][0][:1].islower()]
+    var = names[0] if names else "next"
+    rejected, und = [], False
+    for ch in "azAZmM":
+        outs = ai.Interp(idx=tc).run(cond, {var: ch})
+        vals = set(o.value for o in outs)
+        if vals == {True}:
+            continue
+        if vals == {False}:
+            rejected.append(ch)
+        else:
+            und = True
+    if und and not rejected:
+        return [ob(prefix + "/name-start", None, ctx.where(f), "the first-character test depends on a construct outside the interpreted fragment")]
+    return [ob(prefix + "/name-start", not rejected, ctx.where(f), "a named reference may start with any ASCII letter" if not rejected else "references starting with %s are not recognised" % rejected,
+               witness=None if not rejected else "&Omega; / &Eacute; stay undecoded, without a diagnostic")]
+
+
 def wave7_rules(ctx):
     """obligations added after the seventh wave of seeded changes"""
     ob = ctx.ob
@@ -661,5 +696,6 @@ def run(ctx):
             x["key"] = x["key"].replace("C13.suffix", "C12.paths/suffix")
             obs.append(x)
     obs += wave7_rules(ctx)
+    obs += entity_start_rule(ctx, "C12.entity")
     obs += dash_to_camel_table(ctx, "C12.names")
     return obs
